@@ -97,18 +97,15 @@ Proof. exact gamma_constant_size. Qed.
 Print Assumptions C17_gamma_constant_size.
 
 (** non-vacuity: sizes (1, 2, 1/2) with breaks at 10 and 30 generations (coalescent breaks 5, 10),
-    six times mapped forth and back, the as_dict round trip, a rejected negative time; and a
+    six times mapped forth and back (exh = the history object: coalescent breaks 0, 5, 10), the as_dict round trip, a rejected negative time; and a
     constant-size gamma with exact special-function values (shape 2, rate 5, N = 3) *)
 Example C17_nonvacuous :
-  (exists h, mk_history QNum exh_pop exh_brk = Some h /\
-    h_cb QNum h = [0; 5; 10]%Q /\ h_cr QNum h = [1 # 2; 1 # 4; 1]%Q /\
-    to_coalescent QNum h [0; 5; 10; 20; 30; 40]%Q = Some [0; 5 # 2; 5; 15 # 2; 10; 20]%Q /\
-    to_natural QNum h [0; 5 # 2; 5; 15 # 2; 10; 20]%Q = Some [0; 5; 10; 20; 30; 40]%Q /\
-    as_dict QNum h = (exh_pop, exh_brk) /\
-    to_coalescent QNum h [-1]%Q = None) /\
-  (exists h, mk_history QNum [3]%Q [] = Some h /\
-    gamma_to_natural QNum (fun _ _ => 0)%Q
-      (fun s => if Qeq_bool s 2 then 1 else if Qeq_bool s 3 then 2 else 6)%Q
-      (fun _ s => if Qeq_bool s 2 then 25 else if Qeq_bool s 3 then 125 else 625)%Q
-      (fun _ _ => 25)%Q h 2%Q 5%Q = Some (2, 5 # 6)%Q).
+  (mk_history QNum exh_pop exh_brk = Some exh /\
+   to_coalescent QNum exh [0; 5; 10; 20; 30; 40]%Q = Some [0; 5 # 2; 5; 15 # 2; 10; 20]%Q /\
+   to_natural QNum exh [0; 5 # 2; 5; 15 # 2; 10; 20]%Q = Some [0; 5; 10; 20; 30; 40]%Q /\
+   as_dict QNum exh = (exh_pop, exh_brk) /\
+   to_coalescent QNum exh [-1]%Q = None) /\
+  (mk_history QNum [3]%Q [] = Some exh1 /\
+   gamma_to_natural QNum (fun _ _ => 0)%Q ex_gam ex_pow (fun _ _ => 25)%Q exh1 2%Q 5%Q
+   = Some (2, 5 # 6)%Q).
 Proof. exact (conj C17_example C17_gamma_example). Qed.
